@@ -179,6 +179,47 @@ def e2e_case(binary, case):
                 got = sorted(r.get("series", {}))
                 if "qerr" not in r and got != exp:
                     bad.append(("series-set", "%s: metric %s returned series %s, ingested %s" % (stage, name, got, exp)))
+                # windows over ALL series of the name: a window may leave some series without any datapoint in range
+                # (a target that stopped reporting) - the others must still come back complete and bit-exact
+                members = [(si, s) for si, s in enumerate(series) if s["name"] == name and acc.get(si)]
+                allts = sorted(set(t for si, _ in members for t in acc[si]))
+                cuts = sorted(set(allts[(len(allts) * q) // 6] for q in range(1, 6))) if len(allts) >= 3 else []
+                for cut in cuts:
+                    for (ws, we) in ((cut, hi), (lo, cut)):
+                        expw = {}
+                        for si, s in members:
+                            inw = {t: b for t, b in acc[si].items() if ws <= t <= we and len(b) == 1}
+                            amb = any(ws <= t <= we and len(b) != 1 for t, b in acc[si].items())
+                            if inw or amb:
+                                expw[gid_of(s)] = (inw, amb)
+                        for rep in range(2):     # the engine walks the matched series in map order: ask twice
+                            rw = dr.ok("mquery", promql=name, start=ws, end=we, step=1)
+                            if "qerr" in rw:
+                                bad.append(("query-error", "%s: %s window [%d,%d]: %s" % (stage, name, ws, we, rw["qerr"])))
+                                break
+                            gotw = rw.get("series", {})
+                            miss = [g for g, (inw, amb) in expw.items() if inw and g not in gotw]
+                            strange = [g for g in gotw if g not in expw]
+                            if miss or strange:
+                                bad.append(("window-series-set", "%s: metric %s window [%d,%d]: series missing %s, unexpected %s" % (
+                                    stage, name, ws, we, miss[:3], strange[:3])))
+                                break
+                            wrong = None
+                            for g, pts in gotw.items():
+                                inw, amb = expw[g]
+                                gm = {p[0]: p[1] for p in pts}
+                                for t, b in inw.items():
+                                    if gm.get(t) != "%016x" % b[0]:
+                                        wrong = (g, t, gm.get(t), "%016x" % b[0])
+                                if not amb and set(gm) - set(inw):
+                                    wrong = (g, sorted(set(gm) - set(inw))[0], "present", "not ingested / outside the window")
+                            if wrong:
+                                bad.append(("window-datapoints", "%s: metric %s window [%d,%d]: series %s ts=%s got %s want %s" % (
+                                    (stage, name, ws, we) + wrong)))
+                                break
+                        else:
+                            continue
+                        break
             if collect is not None:
                 collect.extend(bad)
             else:
